@@ -13,6 +13,7 @@ CLAUSES = {
     9: "CheckConn refused permanently although the specification does not refuse",
     10: "CheckConn panicked / temporary failure with records present",
     22: "discoverTLSA ignored authenticated TLSA records published at the MX name although the canonical name has none of its own (no fallback to the initial name)",
+    23: "discoverTLSA swallowed a failing TLSA lookup at the canonical name of an aliased MX instead of deferring (the connection then goes ahead without the records that could not be fetched)",
     21: "discoverTLSA used records from an answer without the AD bit, or did not defer on a failing query",
 }
 TRUSTED = [
